@@ -184,19 +184,30 @@ def go_env():
     return e
 
 
-def build_gotest(ctx, pkg=".", harness_dir=None, race=False, tags="verif", extra_overlay=None):
-    """go test -c of REPO/<pkg> with the harness *_test.go files of harness/<harness_dir>
-    overlaid into the package directory. Returns path of the test binary."""
-    key = (pkg, harness_dir, race, tags, json.dumps(extra_overlay, sort_keys=True) if extra_overlay else "")
+def build_gotest(ctx, pkg=".", harness_dirs=None, race=False, tags="verif", extra_overlay=None):
+    """go test -c of REPO/<pkg> with the *_test.go files of harness/<d> (for each d in
+    harness_dirs) overlaid into the package directory; /repo is never written.  Returns the
+    path of the test binary.  Env VERIF_EXTRA_OVERLAY=<json file {"/repo/x.go": "/path/mutated.go"}>
+    additionally replaces repository sources (used by bin/mutant and the selftest)."""
+    if isinstance(harness_dirs, str):
+        harness_dirs = [harness_dirs]
+    harness_dirs = list(harness_dirs or [])
+    xo = dict(extra_overlay or {})
+    if os.environ.get("VERIF_EXTRA_OVERLAY"):
+        xo.update(json.load(open(os.environ["VERIF_EXTRA_OVERLAY"])))
+    key = (pkg, tuple(harness_dirs), race, tags, json.dumps(xo, sort_keys=True))
     if key in ctx._bins:
         return ctx._bins[key]
     pkgdir = os.path.normpath(os.path.join(REPO, pkg))
-    hd = os.path.join(HARNESS, harness_dir or ("root" if pkg == "." else pkg.replace("/", "_")))
     repl = {}
-    for f in sorted(glob.glob(os.path.join(hd, "*.go"))):
-        repl[os.path.join(pkgdir, os.path.basename(f))] = f
-    if extra_overlay:
-        repl.update(extra_overlay)
+    for d in harness_dirs:
+        hd = os.path.join(HARNESS, d)
+        fs = sorted(glob.glob(os.path.join(hd, "*.go")))
+        if not fs:
+            raise Inconclusive("no harness files in %s" % hd)
+        for f in fs:
+            repl[os.path.join(pkgdir, os.path.basename(f))] = f
+    repl.update(xo)
     tag = hashlib.md5(repr(key).encode()).hexdigest()[:8]
     ov = os.path.join(ctx.tmp, "overlay_%s.json" % tag)
     json.dump({"Replace": repl}, open(ov, "w"))
@@ -209,7 +220,7 @@ def build_gotest(ctx, pkg=".", harness_dir=None, race=False, tags="verif", extra
     p = subprocess.run(cmd, cwd=pkgdir, env=go_env(), stdout=subprocess.PIPE, stderr=subprocess.STDOUT, text=True)
     if p.returncode != 0 or not os.path.exists(out):
         raise Inconclusive("go test -c failed in %s:\n%s" % (pkgdir, p.stdout[-4000:]))
-    ctx.log("built %s (%s%s) in %.1fs" % (pkg, harness_dir or "root", " race" if race else "", time.time() - t0))
+    ctx.log("built %s (%s%s) in %.1fs" % (pkg, "+".join(harness_dirs), " race" if race else "", time.time() - t0))
     ctx._bins[key] = out
     return out
 
